@@ -17,7 +17,8 @@ CTOR = (r'^tiny_keccak::Sha3::v\d+$', r'^tiny_keccak::Kmac::v\d+$', r'^(tiny_kec
 UPDATE = (r'Hasher::update$',)
 FINALIZE = (r'Hasher::finalize$',)
 DEREFS = (r'^std::ops::Deref::deref$', r'^std::ops::DerefMut::deref_mut$', r'^std::convert::AsRef::as_ref$',
-          r'^std::borrow::Borrow::borrow$')
+          r'^std::borrow::Borrow::borrow$', r'^std::vec::Vec::<[^>]*>::as_slice$', r'^std::vec::Vec::<[^>]*>::as_mut_slice$',
+          r'^std::string::String::as_str$', r'^std::string::String::as_bytes$', r'^core::str::<impl str>::as_bytes$')
 
 
 def strip_ref(t):
